@@ -159,7 +159,11 @@ class Transmission(WithObservers, LoggingTrait):
         self.new_transmission(TransmissionTypes.Idle)
 
     def end_data_transmission(self):
-        if self.finished or not self.header or self.type == TransmissionTypes.Idle:
+        if (
+            self.finished
+            or not self.header
+            or self.type != TransmissionTypes.DataTransmission
+        ):
             self.log_info(
                 f"end_data_transmission without effect is_finished:{self.finished} header:{type(self.header)} transmission_type:{self.type}"
             )
@@ -187,8 +191,14 @@ class Transmission(WithObservers, LoggingTrait):
             and len(user_data) >= 5
         ):
             # print(f"udp/ipv4 compressed {user_data.hex()}")
-            udp_ip = UDPIPv4CompressedHeader.from_bits(bits=bytes_to_bits(user_data))
-            print(repr(udp_ip))
+            try:
+                udp_ip = UDPIPv4CompressedHeader.from_bits(
+                    bits=bytes_to_bits(user_data)
+                )
+                print(repr(udp_ip))
+            except AssertionError as e:
+                # too short for the extended headers it announces, nothing to show
+                self.log_warning(f"UDP/IPv4 compressed header not decoded: {e}")
 
         # print("\n" * 3)
 
